@@ -191,6 +191,11 @@ def run_property(pid, tier, seed, wall_budget=None, verbose=True):
     t0 = time.monotonic()
     mod = load(pid)
     specs = mod.shards(tier, seed)
+    if os.environ.get("VERIF_ONLY"):  # development aid: restrict to one harness (never used by registered commands)
+        specs = [s for s in specs if s["h"] in os.environ["VERIF_ONLY"].split(",")]
+        if os.environ.get("VERIF_ONLY_PARAMS"):
+            want = json.loads(os.environ["VERIF_ONLY_PARAMS"])
+            specs = [s for s in specs if all(s["params"].get(k) == v for k, v in want.items())]
     wall_budget = wall_budget or getattr(mod, "WALL", {}).get(tier, 120 if tier == "quick" else 1200)
     t_deadline = t0 + wall_budget
     shards = [ShardState(i, s) for i, s in enumerate(specs)]
